@@ -10,6 +10,8 @@ import (
 	"github.com/6tail/lunar-go/calendar"
 )
 
+var c16KnownFormulaReported bool
+
 func init() {
 	modes["search-C16"] = searchC16
 }
@@ -113,7 +115,7 @@ func searchC16() {
 		})
 	}
 	extra := []hms{{23, 0, 0}, {22, 59, 59}}
-	for _, y := range sweepYears(20) {
+	for _, y := range sweepYears(12) {
 		ys := fmt.Sprint(y)
 		a, msg := c03xLoadAround(y)
 		if a == nil || len(a.cur) != 31 {
@@ -133,7 +135,10 @@ func searchC16() {
 			if s.GetIndex() != exp {
 				return false, fmt.Sprint(s.GetIndex()), fmt.Sprintf("%d (2024 is index 2, one step back per year)", exp)
 			}
-			for e := ly.GetMonths().Front(); e != nil; e = e.Next() {
+			return true, "", ""
+		})
+		c.chk("lunarmonth-star", ys, func() (bool, string, string) {
+			for e := calendar.NewLunarYear(y).GetMonths().Front(); e != nil; e = e.Next() {
 				m := e.Value.(*calendar.LunarMonth)
 				ms := m.GetNineStar()
 				if ok, why := c16NamingOK(ms); !ok {
@@ -198,7 +203,11 @@ func searchC16() {
 		var prev prevState
 		beforeAnchorReported := false
 		lichunJdn := tab[c03xIdxLiChun].at.jdn
-		moments := c03xYearMoments(a, 2, extra...)
+		perDay := 2
+		if tier == "thorough" {
+			perDay = 1 // every year is visited: keep a 1/16 shard within the budget
+		}
+		moments := c03xYearMoments(a, perDay, extra...)
 		lastDay := -1
 		for _, t := range moments {
 			t := t
@@ -396,7 +405,22 @@ func searchC16() {
 					if !exp[idx] && t.jdn < a1s[len(a1s)-1] {
 						// the days of January before the ascending anchor fail together: one report per year (its first day)
 						nBeforeAnchorBad++
-						if !beforeAnchorReported {
+						// KNOWN defect class (call site: last branch of Lunar.GetDayNineStar): before the winter anchor the
+						// library counts (8 + days-to-anchor) mod 9, which is right only when the summer-to-winter anchor gap
+						// is 180 days. Values that follow exactly that formula are aggregated under one call-site key;
+						// anything else is reported with its date.
+						known := false
+						for _, a := range a1s {
+							if idx == c05Mod(8+(a-t.jdn), 9) {
+								known = true
+							}
+						}
+						if known {
+							if !c16KnownFormulaReported {
+								c16KnownFormulaReported = true
+								c.report("day-star-before-winter-anchor-formula", "Lunar.GetDayNineStar:last-branch", fmt.Sprintf("e.g. %s -> %d", t.Ymd(), idx), fmt.Sprintf("%v: %s", es, why))
+							}
+						} else if !beforeAnchorReported {
 							beforeAnchorReported = true
 							c.report("day-star-before-winter-anchor", t.Ymd(), fmt.Sprint(idx), fmt.Sprintf("%v: %s", es, why))
 						}
@@ -419,7 +443,15 @@ func searchC16() {
 			var seen []string
 			for _, h := range []int{0, 1, 3, 5, 7, 9, 11, 13, 15, 17, 19, 21, 23} {
 				h := h
-				t := c03xMomentOf(y, dd.m, dd.d, h, rng.Intn(60), rng.Intn(60))
+				// start of the slot on even days, its last second on odd days
+				t := c03xMomentOf(y, dd.m, dd.d, h, 0, 0)
+				if jdn%2 == 1 {
+					if h == 0 || h == 23 {
+						t = c03xMomentOf(y, dd.m, dd.d, h, 59, 59)
+					} else {
+						t = c03xMomentOf(y, dd.m, dd.d, h+1, 59, 59)
+					}
+				}
 				in := t.String()
 				slot := ((h + 1) / 2) % 12
 				c.chk("hour-star", in, func() (bool, string, string) {
@@ -459,7 +491,7 @@ func searchC16() {
 					return okAsc || okDesc, fmt.Sprint(seen), "all slots of the day on the ascending rule or all on the descending rule"
 				})
 			}
-			if samples < 3 && solstice && rng.Intn(8) == 0 {
+			if samples < 3 && jdn == w1 {
 				samples++
 				l := sol(y, dd.m, dd.d, 12, 0, 0).GetLunar()
 				fmt.Fprintf(out, "SAMPLE %04d-%02d-%02d 12:00 year=%d month=%d day=%d hour=%d\n", y, dd.m, dd.d, l.GetYearNineStarBySect(2).GetIndex(), l.GetMonthNineStarBySect(2).GetIndex(), l.GetDayNineStar().GetIndex(), l.GetTimeNineStar().GetIndex())
